@@ -79,7 +79,7 @@ func buildVersTable(p *Program) *versTable {
 		return vt
 	}
 	if !ve.compatOK {
-		vt.problems = append(vt.problems, "the compatible-version list is not a constant []string literal returned by (*SlimTrie).compatibleVersions")
+		vt.problems = append(vt.problems, "the compatible-version list handed to vers.IsCompatible under Unmarshal is not one constant []string (literal, or the single literal a function returns)")
 		return vt
 	}
 	for _, s := range ve.compat {
